@@ -65,6 +65,11 @@ class ECBinding(CryptographyBinding):
             curve,
         )
         d = base64_to_int(obj["d"])
+        # "d" is an integer in [1, n - 1]: d + n passes the check against the
+        # public point, but it is not a private key of the curve
+        order = getattr(curve, "group_order", None)
+        if order is not None and d >= order:
+            raise ValueError("Invalid EC key")
         private_numbers = EllipticCurvePrivateNumbers(d, public_numbers)
         return private_numbers.private_key(default_backend())
 
